@@ -36,6 +36,8 @@ pub struct Features {
     pub failures: bool,
     /// identifier pool: 0 plain, 1 heavy reuse (shadowing), 2 adversarial names
     pub ident_mode: u8,
+    /// struct literals may list their fields in another order than the declaration
+    pub struct_lit_permute: bool,
     pub max_depth: u32,
     pub n_fns: usize,
 }
@@ -65,9 +67,10 @@ impl Features {
             nested_patterns: true,
             shadowing: true,
             ticks: true,
-            effectful_logic: false,
+            effectful_logic: true,
             failures: false,
             ident_mode: 0,
+            struct_lit_permute: false,
             max_depth: 4,
             n_fns: 5,
         }
@@ -108,6 +111,8 @@ pub struct Gen<'r> {
     /// closure literals may appear in any position of function type (argument, field, element);
     /// off in the clean lattice because the backend cannot type such flows (known finding)
     pub closure_literals_anywhere: bool,
+    /// dyn coercion of values whose impl is on a generic instance (probe only; recorded finding)
+    pub dyn_generic_instances: bool,
     force_closure_once: bool,
 }
 
@@ -138,6 +143,7 @@ impl<'r> Gen<'r> {
             tick_counter: 0,
             cur_fn_index: 0,
             closure_literals_anywhere: false,
+            dyn_generic_instances: false,
             force_closure_once: false,
         }
     }
@@ -732,7 +738,11 @@ impl<'r> Gen<'r> {
             Ty::Vec(t) => self.gen_vec(t, depth - 1, scope),
             Ty::Ref(t) => Expr::Builtin("ref".into(), vec![self.gen_expr(t, depth - 1, scope)]),
             Ty::Struct(n, a) => {
-                let fields = self.struct_fields(n, a);
+                let mut fields = self.struct_fields(n, a);
+                if self.f.struct_lit_permute && self.rng.bool() {
+                    self.tag("struct_lit_permuted");
+                    self.rng.shuffle(&mut fields);
+                }
                 Expr::StructLit { name: n.clone(), ty: ty.clone(), fields: fields.iter().map(|(f, t)| (f.clone(), self.gen_expr(t, depth - 1, scope))).collect() }
             }
             Ty::Enum(n, a) => {
@@ -778,8 +788,47 @@ impl<'r> Gen<'r> {
         Expr::Block(stmts, Some(Box::new(tail)))
     }
 
+    /// `let d: dyn Tr = <value of an implementing type>;` (the coercion site) - returns the statement and binds d
+    fn gen_dyn_let(&mut self, d: u32, inner: &mut Vec<Var>) -> Option<Stmt> {
+        if self.trait_impls.is_empty() {
+            return None;
+        }
+        // impls on generic instances (`impl Tr for S[int32]`) cannot be coerced to dyn in the clean lattice:
+        // the dyn wrapper refers to an undefined function (recorded finding)
+        let cands: Vec<(String, Ty)> = self
+            .trait_impls
+            .iter()
+            .filter(|(_, t)| self.dyn_generic_instances || !matches!(t, Ty::Struct(_, a) | Ty::Enum(_, a) if !a.is_empty()))
+            .cloned()
+            .collect();
+        if cands.is_empty() {
+            return None;
+        }
+        let (tr, it) = self.rng.pick_ref(&cands).clone();
+        // the coerced value must have a syntactically evident type (the typer refuses to coerce an
+        // unresolved type): a known variable of that type, else a fresh annotated one
+        let known: Vec<String> = self.vars_of(inner, &it).into_iter().filter(|v| v.known).map(|v| v.name.clone()).collect();
+        let src = if !known.is_empty() && self.rng.bool() {
+            Expr::Var(self.rng.pick_ref(&known).clone())
+        } else {
+            let v = self.gen_expr(&it, d, inner);
+            let tmp = format!("dynsrc{}", self.counter);
+            self.counter += 1;
+            Expr::Block(vec![Stmt::Let(Pat::Var(tmp.clone()), Some(it.clone()), v)], Some(Box::new(Expr::Var(tmp))))
+        };
+        let n = self.fresh(inner);
+        self.tag("dyn_coercion");
+        inner.push(Var { name: n.clone(), ty: Ty::Dyn(tr.clone()), is_closure: false, known: true });
+        Some(Stmt::Let(Pat::Var(n), Some(Ty::Dyn(tr.clone())), Expr::ToDyn(tr, Box::new(src))))
+    }
+
     fn gen_stmt(&mut self, depth: u32, inner: &mut Vec<Var>) -> Stmt {
         let d = depth.saturating_sub(1);
+        if self.f.dyn_traits && self.f.traits && self.rng.chance(1, 9) {
+            if let Some(s) = self.gen_dyn_let(d, inner) {
+                return s;
+            }
+        }
         match self.rng.below(10) {
             0 => {
                 // effect statement
@@ -911,6 +960,31 @@ impl<'r> Gen<'r> {
             if ret == ty && !it.has_param() {
                 mcands.push((None, it.clone(), name.clone(), extra.clone()));
             }
+        }
+        // dynamic dispatch through a `dyn Tr` variable in scope
+        let mut dcands: Vec<(String, String, String, Vec<Ty>)> = Vec::new();
+        for (i, v) in scope.iter().enumerate() {
+            if let Ty::Dyn(tr) = &v.ty {
+                if scope[i + 1..].iter().any(|w| w.name == v.name) {
+                    continue;
+                }
+                if let Some(t) = self.traits.iter().find(|t| &t.name == tr) {
+                    for m in &t.methods {
+                        if &m.ret == ty {
+                            dcands.push((v.name.clone(), tr.clone(), m.name.clone(), m.extra.clone()));
+                        }
+                    }
+                }
+            }
+        }
+        if !dcands.is_empty() && self.rng.chance(1, 2) {
+            let (var, tr, m, extra) = self.rng.pick_ref(&dcands).clone();
+            let mut args = vec![Expr::Var(var)];
+            for e in &extra {
+                args.push(self.gen_expr(e, d, scope));
+            }
+            self.tag("dyn_call");
+            return Some(Expr::AssocCall { head: tr, method: m, args });
         }
         let total = cands.len() + mcands.len();
         if total == 0 {
